@@ -131,6 +131,8 @@ def want_range(name, arity):
 def run(rep, repo, tier):
     for k, v in RULES.items():
         rep.rule(k, v)
+    from ..defined import check_defined
+    check_defined(rep, repo, 'C03.R5', [repo.method('Solver', '__init__'), repo.method('Solver', 'solve'), repo.method('Solver', 'get_results_short'), repo.method('Solver', 'get_results_long')], 'solver path')
     rep.assumptions += ['A1/A2 (admissible options: cut-offs are positive integers - one beyond the last rank leaves generous nothing to optimise, C02.R6 decides that the model is still solved -, multipliers non-negative integers)', 'A3 PuLP', 'A6 CBC returns a true optimum',
                         'row facts: q in rank_lists[r-1] <=> rs(q)=r is itself obligation C03.R4']
     for name, sp in spec.CRITERIA.items():
